@@ -87,7 +87,7 @@ def _run(tier, seed, t0):
     lvl1 = []
     for a, b in itertools.permutations(base, 2):
         lvl1 += [And(a, b), Or(a, b), Implies(a, b), Eq(a, b), logic.mk_xor(a, b)]
-    lvl1 += [logic.mk_if(p, q, r), logic.mk_if(q, r, p), And(p, q, r), Or(p, q, r), Or(r, p, q), And(q, r, p),
+    lvl1 += [logic.mk_if(p, q, r), logic.mk_if(q, r, p), logic.mk_if(Not(p), q, r), logic.mk_if(p, Not(q), Not(r)), And(p, q, r), Or(p, q, r), Or(r, p, q), And(q, r, p),
              Eq(m, n), Eq(m, m), Not(Not(p)), true, false, Or(p, p, q), And(p, Or(q, r)), Or(And(p, q), r)]
     pool = base + lvl1
     pool = pool + [Not(t) for t in pool] + [Not(Not(Not(p))), Not(Not(Not(q)))]
@@ -131,6 +131,7 @@ def _run(tier, seed, t0):
                     for tail in itertools.permutations(lits[:12], k):
                         cands.append((list(tail), [Thm(phi, (hyp,))]))
                 cands.append((list(phi.strip_disj()), [Thm(phi, (hyp,))]))
+                cands.append(([], [Thm(phi, (hyp,))]))          # the empty clause as conclusion
             else:
                 for k in (0, 1, 2):
                     for tail in itertools.permutations(lits[:12], k):
@@ -186,6 +187,56 @@ def _run(tier, seed, t0):
             elif len(samples) < 8 and st['post_checked'] == 1:
                 samples.append({'bounded': 'c18_contracts', 'case': {'rule': rule, 'args': [str(a) for a in args],
                                                                        'result': str(th)}})
+    # ---- helper functions under contract: clauses evaluated natively on small inputs
+    import kernel.term as KT
+    hstats = {'strip_disj_n': 0, 'Or': 0, 'And': 0, 'strip_disj': 0, 'strip_conj': 0}
+
+    def all_vals(terms, fn):
+        atoms = []
+        for t in terms:
+            _atoms(t, atoms)
+        for bits in itertools.product([False, True], repeat=min(len(atoms), 10)):
+            valuation.clear()
+            valuation.update(zip(atoms, bits))
+            if not fn():
+                return dict((str(a), b) for a, b in zip(atoms, bits))
+        return None
+
+    def hviol(fn, clause, what):
+        violations.append({'function': fn, 'clause': 'contract-native:' + clause, 'what': what})
+
+    for tm in pool:
+        for k in range(0, 5):
+            try:
+                res = call(vm.strip_disj_n, tm, k)
+            except Exception:
+                continue
+            hstats['strip_disj_n'] += 1
+            evals += 1
+            bad = all_vals([tm] + list(res), lambda: bool(C.strip_disj_n.ensures(tm, k, list(res))))
+            if bad is not None:
+                hviol('smt.veriT.verit_macro.strip_disj_n', 'ensures',
+                      'strip_disj_n(%s, %d) returned %s: contract clause false natively under %s' % (
+                          tm, k, [str(x) for x in res], bad))
+        for fname, meth, spec in (('strip_disj', KT.Term.strip_disj, S.sd), ('strip_conj', KT.Term.strip_conj, S.sc)):
+            res = list(meth(tm))
+            hstats[fname] += 1
+            evals += 1
+            if res != list(spec(tm)):
+                hviol('kernel.term.Term.' + fname, 'pure_result', '%s(%s) = %s differs from the spec %s' % (
+                    fname, tm, [str(x) for x in res], [str(x) for x in spec(tm)]))
+    for k in range(0, 4):
+        for tup in itertools.product(small[:7], repeat=k):
+            for fname, fn, con in (('Or', KT.Or, C.Or_), ('And', KT.And, C.And_)):
+                res = fn(*tup)
+                hstats[fname] += 1
+                evals += 1
+                ok1 = bool(con.ensures(list(tup), res))
+                bad = all_vals(list(tup) + [res], lambda: bool(con.ensures_sem(list(tup), res)))
+                if not ok1 or bad is not None:
+                    hviol('kernel.term.' + fname, 'ensures', '%s%s = %s: contract clause false natively (%s)' % (
+                        fname, tuple(str(x) for x in tup), res, bad))
+    stats['_helpers'] = hstats
     vacuous = [x for x in rules if stats[x]['pre_true'] == 0]
     for x in vacuous:
         violations.append({'function': 'smt.veriT.verit_macro.macro__verit_%s.eval' % x,
@@ -195,12 +246,22 @@ def _run(tier, seed, t0):
     for x in missing:
         violations.append({'function': 'smt.veriT.verit_macro.macro__verit_%s.eval' % x,
                            'clause': 'contract-native:missing', 'what': 'rule listed in the plan has no contract class'})
-    return {'name': 'c18_contracts',
+    # at most three witnesses per function and clause
+    seen_n = {}
+    kept = []
+    for v in violations:
+        kk = (v['function'], v['clause'])
+        seen_n[kk] = seen_n.get(kk, 0) + 1
+        if seen_n[kk] <= 3:
+            kept.append(v)
+    n_all = len(violations)
+    violations = kept
+    return {'name': 'c18_contracts', 'witnesses_found': n_all,
             'rule': 'native evaluation of the contracts of %d proved rule evaluations: argument lists of 1-3 terms '
                     'from a pool of %d formulas over p, q, r (Boolean and nat equalities, conditionals, xor), '
                     'premise none / one pool formula under a hypothesis; ensures evaluated under all 2^k valuations '
                     'of the atoms' % (len(rules), len(pool)),
-            'evaluations': evals, 'distinct_nontrivial': sum(s['post_checked'] for s in stats.values()),
+            'evaluations': evals, 'distinct_nontrivial': sum(s.get('post_checked', 0) for s in stats.values()) + sum(hstats.values()),
             'per_rule': stats, 'samples': samples, 'violations': violations, 'n_violations': len(violations),
             'secs': round(time.time() - t0, 1)}
 
